@@ -210,7 +210,7 @@ pub fn run(ctx: &Ctx, stats: &mut Stats) {
         })
     });
     run_exhaustive(ctx, stats, "exh-small", items, &check);
-    let n = ctx.tier.pick(300_000, 5_000_000);
+    let n = ctx.tier.pick(2_000_000, 30_000_000);
     run_prop(ctx, stats, "random", n, strat(), &check);
 }
 
